@@ -38,6 +38,14 @@ CLAIMS = {
              "generate_from_var resets mode_proj_order / eps_truncate_imaginary_part / eps_zero.",
         technique=TECH + "exact symbolic interpretation of integer index code over polynomial normal forms, def-use matching, "
                          "ordered table agreement, scalar d-exponent normal form, slot conformance, field-completeness"),
+    "C05": dict(
+        text="Decides that the iteration IS Dykstra's alternating projection: in both routines and both orders the loop body normalises, "
+             "in an exact affine domain, to y'=P_A(x+p); p'=x+p-y'; x'=P_B(y'+q); q'=y'+q-x' with the right (A,B); p,q start at zero and "
+             "x at the input; prev:=next shift; stopping value sum (p-p')^2+(q-q')^2 compared with < eps_proj_physical from the second "
+             "sweep; last x' returned (converted with the caller's flag); history lists receive the carried iterates; closures forward.",
+        note="Not decided: convergence, accuracy at termination, nearest-point-ness and order-independence of the limit (numerical).",
+        technique=TECH + "abstract interpretation of the loop body in an exact linear-form domain with opaque projection terms, "
+                         "schema comparison in normal form, call-binding of the stopping helpers"),
 }
 
 NOT_APPLICABLE = {
